@@ -212,6 +212,9 @@ def cases(tier, seed):
         for sub0 in (0, 1):
             for parent0, single0 in [(a, b) for a in range(n + 1) for b in range(3)]:
                 fixed = {"sub0": sub0, "parent0": parent0, "single0": single0}
+                if tier == "quick":
+                    # quick: the class of the second target rotates with the case (thorough explores every combination)
+                    fixed["leafclass1"] = (parent0 + single0 + sub0) % 4
                 nm = "graph|%s|node0=%s,parent0=%d,ref0=%d" % ("alt-mapped Vec targets" if with_vecs else "Leaf/SubLeaf/SubSubLeaf targets", ["Node", "SubNode"][sub0], parent0 - 1, single0 - 1)
                 cs.append(Case(nm + "|n=%d" % n, graph_case(n, with_vecs, fixed, nseq), key=nm, validate=1, timeout=900 if tier == "quick" else 3000,
                                max_paths=200000 if tier == "quick" else 3000000))
